@@ -53,6 +53,17 @@ Definition accept_remote (pin : option N) (accepted_names : list N) (c : cert) (
                  end in
   if cert_ok && verify_hs c p transcript then peer_id c else None.
 
+(** What a remote presents is a certificate chain.  rustls hands the verifier its first element as
+    the end-entity certificate and the rest as "intermediates", which anemo's verifiers ignore
+    (the self-signed end entity is its own trust anchor); [Connection::peer_id] reads the identity
+    from that same first element and from nothing else. *)
+Definition accept_chain (pin : option N) (accepted_names : list N) (ch : list cert) (p : hsproof)
+           (transcript : N) : option N :=
+  match ch with
+  | [] => None
+  | c :: _ => accept_remote pin accepted_names c p transcript
+  end.
+
 (** Client authentication is mandatory: a client presenting no certificate is never accepted. *)
 Definition accept_client (accepted_names : list N) (c : option cert) (p : hsproof) (transcript : N)
   : option N :=
